@@ -85,7 +85,14 @@ class UnitOfWork(object):
             return
 
         if not self.current_transaction:
-            return
+            if not self.operations:
+                return
+            # Versioned objects were written by this flush although nothing
+            # looked modified before it (for example children whose foreign
+            # key is nullified when a non-versioned parent is deleted are
+            # only loaded during the flush): their changes need a transaction
+            # record like any other change.
+            self.create_transaction(session)
 
         if not self.version_session:
             self.version_session = sa.orm.session.Session(
